@@ -151,6 +151,16 @@ func Main(checks map[string]CheckFunc) {
 		}()
 		fn(c)
 	}()
+	if c.Replay != nil && c.out.Replay == nil {
+		// input-enumeration checks replay by re-running the enumeration
+		rr := &ReplayResult{}
+		for _, v := range c.out.Violations {
+			if v.Sig == c.Replay.Sig {
+				rr.Reproduced, rr.Msg = true, v.Msg
+			}
+		}
+		c.out.Replay = rr
+	}
 	c.out.WallS = time.Since(start).Seconds()
 	b, _ := json.MarshalIndent(c.out, "", " ")
 	if p := os.Getenv("VERIF_OUT"); p != "" {
